@@ -113,3 +113,13 @@ Theorem C04_without_a_period_a_stale_hit_collects :
   step l s h = (fire s (h_ts h), true).
 Proof. intros l s h A B C D. apply step_live; auto. right. left. lia. Qed.
 Print Assumptions C04_without_a_period_a_stale_hit_collects.
+
+(* KNOWN FINDING (clock-set-back): with a POSITIVE period the signed difference decides, so a hit that carries a time a whole period
+   or more BEFORE the last recorded fire is refused although the two collections would be more than a period apart: period 1000 ms,
+   last fire at 10 s, hit at 5 s *)
+Theorem C04_clock_set_back_refuted :
+  let l := {| fc := -1; fp := 1000; ws := 0; we := 0 |} in
+  let s := {| cnt := 1; lastf := 10000000000 |} in
+  step l s {| h_ts := 5000000000; h_cond := true |} = (s, false) /\ 10000000000 - 5000000000 >= fp l * 1000000.
+Proof. vm_compute. split; [reflexivity|discriminate]. Qed.
+Print Assumptions C04_clock_set_back_refuted.
